@@ -3,6 +3,7 @@ package sx
 import (
 	"go/token"
 	"go/types"
+	"strings"
 
 	"golang.org/x/tools/go/ssa"
 )
@@ -101,20 +102,105 @@ func (fi *FnInfo) computePostDom() {
 	}
 }
 
-func pureInstr(ins ssa.Instruction) bool {
+func (p *Program) pureInstr(ins ssa.Instruction) bool {
 	switch x := ins.(type) {
 	case *ssa.BinOp:
-		return x.Op != token.QUO && x.Op != token.REM && x.Op != token.SHL && x.Op != token.SHR || true
+		return true
 	case *ssa.UnOp:
 		return x.Op != token.ARROW
 	case *ssa.Field, *ssa.FieldAddr, *ssa.Extract, *ssa.Convert, *ssa.ChangeType, *ssa.Phi, *ssa.Jump, *ssa.If,
 		*ssa.IndexAddr, *ssa.Index, *ssa.ChangeInterface, *ssa.DebugRef:
 		return true
+	case *ssa.Alloc:
+		return !x.Heap
+	case *ssa.Store:
+		return true // only to locals of the evaluated function; checked at run time
+	case *ssa.Call:
+		if x.Call.IsInvoke() {
+			return false
+		}
+		if fn, ok := x.Call.Value.(*ssa.Function); ok {
+			if _, ok := pureHarness[shortName(fn)]; ok {
+				return true
+			}
+			return p.pureFn(fn)
+		}
 	}
 	return false
 }
 
+func shortName(fn *ssa.Function) string {
+	if fn.Pkg == nil || !strings.HasPrefix(fn.Pkg.Pkg.Path(), ModPath) {
+		return ""
+	}
+	return fn.Name()
+}
+
+// pureHarness: harness primitives without side effects.
+var pureHarness = map[string]func(a []Value) Value{
+	"vAnd":     func(a []Value) Value { return And(a[0].(*Term), a[1].(*Term)) },
+	"vOr":      func(a []Value) Value { return Or(a[0].(*Term), a[1].(*Term)) },
+	"vImplies": func(a []Value) Value { return Or(Not(a[0].(*Term)), a[1].(*Term)) },
+	"vIte64":   func(a []Value) Value { return Ite(a[0].(*Term), a[1].(*Term), a[2].(*Term)) },
+	"vB2U":     func(a []Value) Value { return BoolToBV(a[0].(*Term), 64) },
+}
+
+// pureFn: body consists of pure instructions and returns only, acyclic CFG.
+func (p *Program) pureFn(fn *ssa.Function) bool {
+	if v, ok := p.pure.Load(fn); ok {
+		return v.(bool)
+	}
+	p.pure.Store(fn, false) // recursion guard
+	ok := len(fn.Blocks) > 0 && len(fn.Blocks) <= 40
+	if _, isIntr := intrinsics[fn.String()]; isIntr {
+		ok = false
+	}
+	if _, isH := harnessIntrinsics[shortName(fn)]; isH {
+		ok = false
+	}
+	if ok {
+		// acyclic: block indices along edges must allow a DFS without back edges
+		color := make([]int, len(fn.Blocks))
+		var dfs func(b *ssa.BasicBlock) bool
+		dfs = func(b *ssa.BasicBlock) bool {
+			color[b.Index] = 1
+			for _, s := range b.Succs {
+				if color[s.Index] == 1 {
+					return false
+				}
+				if color[s.Index] == 0 && !dfs(s) {
+					return false
+				}
+			}
+			color[b.Index] = 2
+			return true
+		}
+		ok = dfs(fn.Blocks[0])
+	}
+	if ok {
+	outer:
+		for _, b := range fn.Blocks {
+			for _, ins := range b.Instrs {
+				if _, isRet := ins.(*ssa.Return); isRet {
+					continue
+				}
+				if !p.pureInstr(ins) {
+					if DebugPure {
+						println("impure:", fn.String(), ins.String())
+					}
+					ok = false
+					break outer
+				}
+			}
+		}
+	}
+	p.pure.Store(fn, ok)
+	return ok
+}
+
 const maxMergePaths = 64
+
+var DebugPure = false
 
 // tryMerge attempts to if-convert the region of the If terminating f.blk.
 func (st *State) tryMerge(f *Frame, cond *Term) (merged bool) {
@@ -128,7 +214,7 @@ func (st *State) tryMerge(f *Frame, cond *Term) (merged bool) {
 	// region purity check (cached per If block)
 	ok, known := f.fi.mergeOK[f.blk.Index]
 	if !known {
-		ok = regionPure(f.blk, join)
+		ok = st.run.P.regionPure(f.blk, join)
 		f.fi.mergeMu.Lock()
 		f.fi.mergeOK[f.blk.Index] = ok
 		f.fi.mergeMu.Unlock()
@@ -288,6 +374,24 @@ func iteValue(c *Term, a, b Value) (Value, bool) {
 		if y, ok := b.(Ptr); ok && x == y {
 			return x, true
 		}
+	case Tuple:
+		y, ok := b.(Tuple)
+		if !ok || len(x) != len(y) {
+			return nil, false
+		}
+		out := make(Tuple, len(x))
+		for i := range x {
+			v, ok := iteValue(c, x[i], y[i])
+			if !ok {
+				return nil, false
+			}
+			out[i] = v
+		}
+		return out, true
+	case nil:
+		if b == nil {
+			return nil, true
+		}
 	case Str:
 		if y, ok := b.(Str); ok && x == y {
 			return x, true
@@ -296,7 +400,7 @@ func iteValue(c *Term, a, b Value) (Value, bool) {
 	return nil, false
 }
 
-func regionPure(start, join *ssa.BasicBlock) bool {
+func (p *Program) regionPure(start, join *ssa.BasicBlock) bool {
 	seen := map[*ssa.BasicBlock]bool{}
 	count := 0
 	var visit func(b *ssa.BasicBlock, onStack map[*ssa.BasicBlock]bool) bool
@@ -316,7 +420,11 @@ func regionPure(start, join *ssa.BasicBlock) bool {
 		}
 		for _, ins := range b.Instrs {
 			count++
-			if count > 200 || !pureInstr(ins) {
+			if count > 200 || !p.pureInstr(ins) {
+				return false
+			}
+			switch ins.(type) {
+			case *ssa.Alloc, *ssa.Store:
 				return false
 			}
 		}
@@ -366,7 +474,143 @@ func (st *State) stepPure(f *Frame, ins ssa.Instruction) {
 	case *ssa.IndexAddr:
 		st.set(f, x, st.indexAddr(f, x))
 	case *ssa.DebugRef:
+	case *ssa.Alloc:
+		t := elemOfPtr(x.Type())
+		b := st.newBlock(sizeof(t), t, 1, BStack)
+		f.locals = append(f.locals, b)
+		st.set(f, x, Ptr{Blk: b})
+	case *ssa.Store:
+		p, ok := st.get(f, x.Addr).(Ptr)
+		if !ok || f.symGuard {
+			panic(specAbort{})
+		}
+		mine := false
+		for _, l := range f.locals {
+			if l == p.Blk {
+				mine = true
+			}
+		}
+		if !mine || !f.pureEval {
+			panic(specAbort{})
+		}
+		st.Store(p, x.Val.Type(), st.get(f, x.Val))
+	case *ssa.Call:
+		fn := x.Call.Value.(*ssa.Function)
+		args := make([]Value, len(x.Call.Args))
+		for i, a := range x.Call.Args {
+			args[i] = st.get(f, a)
+			if _, isSym := args[i].(SymPtr); isSym {
+				panic(specAbort{})
+			}
+		}
+		if h, ok := pureHarness[shortName(fn)]; ok {
+			st.set(f, x, h(args))
+		} else {
+			st.set(f, x, st.evalPureFn(fn, args, f.depth+1))
+		}
 	default:
 		panic(specAbort{})
 	}
+}
+
+// evalPureFn evaluates a pure function on all its paths and merges the results.
+func (st *State) evalPureFn(fn *ssa.Function, args []Value, depth int) Value {
+	if depth > 8 {
+		panic(specAbort{})
+	}
+	fi := st.run.P.info(fn)
+	fr := &Frame{fi: fi, regs: make([]Value, fi.nslots), blk: fn.Blocks[0], pureEval: true, depth: depth}
+	for i, p := range fn.Params {
+		fr.regs[fi.slots[p]] = args[i]
+	}
+	defer func() {
+		for _, b := range fr.locals {
+			st.blocks[b] = nil
+		}
+	}()
+	type retv struct {
+		guard *Term
+		v     Value
+	}
+	var rets []retv
+	var walk func(from, b *ssa.BasicBlock, guard *Term)
+	walk = func(from, b *ssa.BasicBlock, guard *Term) {
+		if len(rets) > maxMergePaths {
+			panic(specAbort{})
+		}
+		fr.prev, fr.blk = from, b
+		var pv []Value
+		np := 0
+		for _, ins := range b.Instrs {
+			p, ok := ins.(*ssa.Phi)
+			if !ok {
+				break
+			}
+			idx := -1
+			for i, pr := range b.Preds {
+				if pr == from {
+					idx = i
+				}
+			}
+			pv = append(pv, st.get(fr, p.Edges[idx]))
+			np++
+		}
+		for i := 0; i < np; i++ {
+			st.set(fr, b.Instrs[i].(*ssa.Phi), pv[i])
+		}
+		for i := np; i < len(b.Instrs); i++ {
+			switch x := b.Instrs[i].(type) {
+			case *ssa.Jump:
+				walk(b, b.Succs[0], guard)
+				return
+			case *ssa.If:
+				c := st.term(fr, x.Cond)
+				if c.Op == OConst {
+					if c.K != 0 {
+						walk(b, b.Succs[0], guard)
+					} else {
+						walk(b, b.Succs[1], guard)
+					}
+					return
+				}
+				fr.symGuard = true
+				walk(b, b.Succs[0], And(guard, c))
+				walk(b, b.Succs[1], And(guard, Not(c)))
+				return
+			case *ssa.Return:
+				var res Value
+				switch len(x.Results) {
+				case 0:
+				case 1:
+					res = st.get(fr, x.Results[0])
+				default:
+					t := make(Tuple, len(x.Results))
+					for k, r := range x.Results {
+						t[k] = st.get(fr, r)
+					}
+					res = t
+				}
+				rets = append(rets, retv{guard, res})
+				return
+			default:
+				fr.blk = b
+				fr.ip = i
+				st.stepPure(fr, b.Instrs[i])
+			}
+		}
+		panic(specAbort{})
+	}
+	walk(nil, fn.Blocks[0], B(true))
+	if len(rets) == 0 {
+		panic(specAbort{})
+	}
+	v := rets[len(rets)-1].v
+	for k := len(rets) - 2; k >= 0; k-- {
+		nv, ok := iteValue(rets[k].guard, rets[k].v, v)
+		if !ok {
+			panic(specAbort{})
+		}
+		v = nv
+	}
+	return v
 }
